@@ -1,7 +1,7 @@
 """Property registry: which units / engines decide each property, and what is assumed."""
 
 A_ARK1 = "A-ARK-1: ark_ff::Fp<MontBackend<_,N>> arithmetic (+ - * neg square inverse from_le_bytes_mod_order serialize_compressed new new_unchecked) behaves as Z/p on the canonical value; limbs are the Montgomery form"
-A_STD = "A-STD: std stand-ins as stated in preludes/std_standins.rs, chunk_lemmas.rs, ord_lemmas.rs and the unit texts: Iterator::fold trace contract, u128::from(bool), array reverse / lexicographic cmp, Hasher::write, slice chunks / iter / map / rev / fold / collect (the iterator chains are desugared to index loops by R25/R28), to_vec, copy_from_slice on a prefix, u64 <-> little-endian bytes"
+A_STD = "A-STD: std stand-ins as stated in preludes/std_standins.rs, chunk_lemmas.rs, ord_lemmas.rs and the unit texts: Iterator::fold trace contract, u128::from(bool), array reverse / lexicographic cmp, Hasher::write, slice chunks / iter / map / rev / fold / collect / iter_mut().zip(chunks_exact) (the iterator chains are desugared to index loops by R25/R28/R30), IntoIterator::into_iter / Iterator::next / zip / fold on generic iterators (the sequence an iterator yields is abstract; next pops its head; zip polls the left side first; R32 desugars a.zip(b).fold(init, f) to that loop), core::borrow::Borrow, to_vec, copy_from_slice on a prefix, u64 <-> little-endian bytes"
 M_PRIME = "M-PRIME: q, r, p are prime (a * a^(p-2) == 1 for a != 0)"
 A_WF = "A-WF: every Fq/Fr/Fp value in circulation satisfies the wrapper invariant (limbs < p); from_montgomery_limbs is only called with reduced limbs (all literal call sites in /repo are checked by compute under C17)"
 
@@ -30,7 +30,7 @@ PROPS["C04"] = dict(units=["ark_ops", "ark_encoding"], assumptions=[A_ARK2, M_GR
     explanation="each operator form ensures to_affine(result) == to_affine(te_add/te_sub/te_neg(views of operands)): the reference group law in canonical affine form",
     not_decided=["termination of operator forwarding chains (R12)"])
 PROPS["C05"] = dict(units=["ark_ops"], assumptions=[A_ARK2, M_GROUP, A_WF, A_STD],
-    explanation="each Mul/MulAssign form ensures to_affine(result) == to_affine(ark_mul(k, view(point))) where ark_mul is arkworks' scalar multiplication (assumed projectively equal to the k-fold sum)")
+    explanation="each Mul/MulAssign form ensures to_affine(result) == to_affine(ark_mul(k, view(point))) where ark_mul is arkworks' scalar multiplication (assumed projectively equal to the k-fold sum); Element::vartime_multiscalar_mul: for iterators of any lengths the result is the left-to-right sum, from the identity, of terms that are (in canonical affine form) the reference products [c_i] P_i of exactly the pairs the zip yields (loop invariant after R32; the generic VariableBaseMSM impl is arkworks code over the operators proved here)")
 
 PROPS["C04"]["units"] = ["ark_ops", "ark_encoding", "ark_element"]
 PROPS["C05"]["units"] = ["ark_ops", "ark_element"]
@@ -53,15 +53,14 @@ PROPS["C12"] = dict(units=["ark_encoding", "ark_ops", "ark_elligator", "ark_elem
                  "te_add_min(p,q) = 4 * te_add(p,q) coordinatewise and spec_encode is invariant under projective scaling (M-GROUP / M-DECAF), so exact-formula contracts of the minimal build and normal-form contracts of the arkworks build denote the same group element"],
     explanation="relational property decided by common specification: for every operation offered by both builds the arkworks unit and the minimal unit are verified against the same spec functions of preludes/curve_spec.rs (spec_decode, spec_encode, ell_opt, te_add, smul); byte-level results then agree")
 
-A_ARK3 = "A-ARK-3: ark_serialize default methods (deserialize_compressed -> our deserialize_with_mode -> deserialize_with_flags -> from_bigint; serialize_compressed -> serialize_with_flags) and Read/Write on byte slices as documented; the bytes->limbs loop of deserialize_with_flags (iter_mut().zip(chunks_exact)) is outside Verus and is assumed to be the little-endian conversion"
+A_ARK3 = "A-ARK-3: ark_serialize surface as stated in preludes/ark_serialize.rs: the default methods deserialize_compressed / serialize_compressed forward to our deserialize_with_mode / serialize_with_mode (both proved in fieldx_<f>, down to deserialize_with_flags / serialize_with_flags / from_bigint / to_bytes_le); std::io::Read::read_exact fills the buffer from the front of the stream or fails, Write::write_all appends or fails, an io::Error becomes SerializationError::IoError; Flags::from_u8_remove_flags is the documented default method (parse, then clear the mask bits); the round trip of value and flags is proved for every flag type obeying flags_law (mask in the top BIT_SIZE bits, parsing reads only those), which EmptyFlags, TEFlags and SWFlags are proved to obey from their ark-serialize 0.4.2 definitions; the stream parameters taken by value in the source are taken by &mut (rule R31: f(mut r: R) = g(&mut r) with g the verified text); a reader fails only on a short stream and a writer only when full (in-memory streams)"
 for _p in ("C01", "C02"):
     PROPS[_p]["units"] = list(PROPS[_p]["units"]) + ["fieldx_fq"]
     PROPS[_p]["assumptions"] = list(PROPS[_p]["assumptions"]) + [A_ARK3]
 PROPS["C11"] = dict(units=["fieldx_fq", "fieldx_fr", "fieldx_fp", "wrap64_fq", "wrap64_fr", "wrap64_fp", "ops_fq", "ops_fr", "ops_fp"],
     assumptions=[A_ARK1, A_ARK3, A_STD, A_WF],
-    explanation="byte/limb/bigint conversions refine the integer value: to_bytes(_le) is the little-endian form of val, from_bytes_checked accepts exactly the integers below p, from_bigint is Some iff below p, from_le_limbs/from_raw_bytes reduce mod p, From<u8..u128,bool>; from_le_bytes_mod_order / from_be_bytes_mod_order reduce byte strings of ANY length (Horner loop invariant over N_8-byte chunks); Ord::cmp / PartialOrd::partial_cmp are integer comparison of the values (lexicographic comparison of the reversed limb arrays, lemma_lex_is_int proved); Hash writes exactly the canonical little-endian bytes, a function of the value",
+    explanation="byte/limb/bigint conversions refine the integer value: to_bytes(_le) is the little-endian form of val, from_bytes_checked accepts exactly the integers below p, from_bigint is Some iff below p, from_le_limbs/from_raw_bytes reduce mod p, From<u8..u128,bool>; from_le_bytes_mod_order / from_be_bytes_mod_order reduce byte strings of ANY length (Horner loop invariant over N_8-byte chunks); Ord::cmp / PartialOrd::partial_cmp are integer comparison of the values (lexicographic comparison of the reversed limb arrays, lemma_lex_is_int proved); Hash writes exactly the canonical little-endian bytes, a function of the value; the flag-carrying stream format: serialize_with_flags writes ser_bytes(value, flags) (canonical bytes with the mask OR-ed into the top byte, or one extra byte when the flags do not fit), deserialize_with_flags returns deser_spec of the bytes it reads (NotEnoughSpace for flags wider than 8 bits, IoError on a short stream, UnexpectedFlags, InvalidData for non-canonical values, else value and flags) and consumes exactly serialized_size_with_flags bytes, serialize_with_mode / deserialize_with_mode / serialized_size / Valid::check are the EmptyFlags instances; lemma_flags_roundtrip: for every flag type obeying the flag law, deserialising what was serialised (followed by anything) returns the same value and flags",
     not_decided=["FromStr / Display (char iteration, BigInt::to_string): bounded probe field.* (decimal round trip)",
-                 "serialize_with_flags / deserialize_with_flags generic over Read / Write / Flags: bounded probe field.* (EmptyFlags, TEFlags, SWFlags, an 8-bit and a 9-bit custom flag type; canonical and non-canonical inputs)",
                  "Field::sqrt / legendre (arkworks generic routines, A-ARK-1): bounded"])
 
 PROPS["C17"] = dict(units=["consts"], assumptions=[M_PRIME + " (the certified factors of p-1 are prime)", "the reference moduli are read from the cargo registry source of ark-bls12-377 / ark-ed-on-bls12-377 0.4.0"],
@@ -70,16 +69,14 @@ PROPS["C17"] = dict(units=["consts"], assumptions=[M_PRIME + " (the certified fa
 for _p in ("C04", "C05", "C06", "C07", "C12"):
     PROPS[_p]["units"] = list(PROPS[_p]["units"]) + ["consts"]
 
-A_ARK4 = "A-ARK-4: each ark_r1cs_std primitive used (FpVar new_witness/new_constant/square/inverse/negate/is_eq/conditionally_select/conditional_enforce_equal/to_bits_le/+,-,*; Boolean new_witness/and/or/not/is_eq/enforce_equal/select; AffineVar::new; AffineVar add / sub / double_in_place / negate / zero / constant / new_variable_omit_prime_order_check as gadgets for the twisted Edwards group law on curve points, preludes/r1cs_group.rs) is a sound and complete gadget for the operation it names (preludes/r1cs.rs); a variable allocated in Constant mode has no constraint system and witnessing into it fails; EqGadget::enforce_equal and AllocVar::new_input are the arkworks default methods over the functions proved here; in the soundness reading a panic (expect) during synthesis leaves no circuit to reason about"
+A_ARK4 = "A-ARK-4: each ark_r1cs_std primitive used (FpVar new_witness/new_constant/square/inverse/negate/is_eq/conditionally_select/conditional_enforce_equal/to_bits_le/+,-,*; Boolean new_witness/and/or/not/is_eq/enforce_equal/select; AffineVar::new; AffineVar add / sub / double_in_place / negate / zero / constant / new_variable_omit_prime_order_check as gadgets for the twisted Edwards group law on curve points, preludes/r1cs_group.rs) is a sound and complete gadget for the operation it names (preludes/r1cs.rs); a variable allocated in Constant mode has no constraint system and witnessing into it fails; EqGadget::enforce_equal and AllocVar::new_input are the arkworks default methods over the functions proved here; in the completeness reading AffineVar::new_variable_omit_prime_order_check succeeds on an on-curve point and holds its affine coordinates, FpVar::new_variable holds the hint's value, allocation outside Constant mode needs a constraint system, the native encoder meets its C03 contract and the coordinates of a native point are field elements; in the soundness reading a panic (expect) during synthesis leaves no circuit to reason about"
 PROPS["C14"] = dict(units=["r1cs_sound", "r1cs_fwd_sound", "r1cs_outer_sound"], assumptions=[A_ARK4, M_PRIME + " (no zero divisors; a non-zero square has exactly two roots; zeta is a non-square)", M_DECAF, A_WF],
-    explanation="the verbatim gadget code is verified with every witness value left arbitrary and every enforced constraint taken as a fact: any satisfying assignment makes isqrt / sign / abs / encode / decode / Elligator / equality / select outputs satisfy the specification's relations; the four AllocVar::new_variable functions (inner AllocVar<Element>; outer AllocVar<Element>, AllocVar<AffinePoint>, AllocVar<Fq>) are verified with the offered point, the offered encoding and both isqrt hints arbitrary: a Witness-mode variable is always the in-circuit decoding of some field element or an on-curve point the equality gadget identifies with it; known finding D6 is the region den = 0 of isqrt (decode of s = q-1)",
-    not_decided=["CurveVar::new_variable_omit_prime_order_check of both layers (by its name it performs no group check; callers that need one go through new_variable, which is proved): bounded probe r1cs.alloc",
-                 "to_bits_le / to_bytes / value / cs of both ElementVar layers", "lazy.rs itself is C13 (Kani)"])
+    explanation="the verbatim gadget code is verified with every witness value left arbitrary and every enforced constraint taken as a fact: any satisfying assignment makes isqrt / sign / abs / encode / decode / Elligator / equality / select outputs satisfy the specification's relations; the four AllocVar::new_variable functions (inner AllocVar<Element>; outer AllocVar<Element>, AllocVar<AffinePoint>, AllocVar<Fq>) are verified with the offered point, the offered encoding and both isqrt hints arbitrary: a Witness-mode variable is always the in-circuit decoding of some field element or an on-curve point the equality gadget identifies with it; CurveVar::new_variable_omit_prime_order_check of both layers (by its name no group check) still yields an on-curve point outside Constant mode; known finding D6 is the region den = 0 of isqrt (decode of s = q-1)",
+    not_decided=["to_bits_le / to_bytes / value / cs of both ElementVar layers", "lazy.rs itself is C13 (Kani)"])
 
 PROPS["C13"] = dict(units=["r1cs_compl", "r1cs_fwd_compl", "r1cs_outer_compl"], assumptions=[A_ARK4, M_PRIME, M_ELL, M_DECAF, C09_CONTRACT, A_WF],
-    explanation="the verbatim gadget code is verified with honest hints (witness = value of the hint closure) and every enforced constraint / inverse / new_witness / expect as a proof obligation: synthesis returns Ok, all constraints hold, and outputs equal the native specification values (isqrt flag and root, sign, abs, encode, decode when native decoding succeeds, Elligator coordinates, equality, select); the 17 operator / CurveVar forwarding impls of inner.rs and the 27 functions of the lazily evaluated outer ElementVar (element.rs, ops.rs) are verified against the group law te_add / te_neg with LazyElementVar abstract; lazy.rs itself (forcing order, repetition, emission counts, RefCell discipline) is proved by Kani on the verbatim file",
-    not_decided=["AllocVar::new_variable / new_variable_omit_prime_order_check (generic Borrow / closure plumbing): bounded probe r1cs.lazy (every allocation route)",
-                 "scalar multiplication gadget scalar_mul_le (arkworks default method over double_in_place / conditionally_select / add, all three under contract)",
+    explanation="the verbatim gadget code is verified with honest hints (witness = value of the hint closure) and every enforced constraint / inverse / new_witness / expect as a proof obligation: synthesis returns Ok, all constraints hold, and outputs equal the native specification values (isqrt flag and root, sign, abs, encode, decode when native decoding succeeds, Elligator coordinates, equality, select); the 17 operator / CurveVar forwarding impls of inner.rs and the 27 functions of the lazily evaluated outer ElementVar (element.rs, ops.rs) are verified against the group law te_add / te_neg with LazyElementVar abstract; the allocation functions (inner AllocVar<Element>::new_variable; outer AllocVar<Element> / AllocVar<AffinePoint> / AllocVar<Fq>::new_variable; CurveVar::new_variable_omit_prime_order_check of both layers) are verified for the honest prover in every mode they support: the hint closure returns an element on the curve whose encoding decodes to an element equal to it (what C06 establishes), synthesis then succeeds -- the in-circuit decoding of the witnessed encoding exists and the equality constraint with the witnessed coordinates holds -- and the variable denotes the native element (Witness: its canonical representative; Constant: its affine form; Input: its encoding, which decodes); lazy.rs itself (forcing order, repetition, emission counts, RefCell discipline) is proved by Kani on the verbatim file",
+    not_decided=["scalar multiplication gadget scalar_mul_le (arkworks default method over double_in_place / conditionally_select / add, all three under contract)",
                  "to_bits_le / to_bytes / value / cs", "histories of forcing operations longer than 4 on one lazy variable (absorbing-state argument, see DESIGN 2.6)"])
 
 M_SQRT = "M-SQRT (retired): both square-root routines are proved -- the Sarkar table routine of the default build in unit ark_invsqrt, the constant-time Tonelli-Shanks `our_sqrt` of the minimal build in unit min_invsqrt (loop invariant z^2 = t x, t^(2^(i-1)) = 1, c^(2^(i-1)) = -1)"
